@@ -15,7 +15,7 @@ use crate::{
     gen::{cfg_strategy, chacha, ctx_strategy, healthy_rng_strategy, lattice, mask_of, rand_scalar, triple_strategy, Cfg, CtxSpec, Triple, TripleSpec},
     mutate::{proof_mut, st_mut, Applied, ProofMut, PubStatement, StMut},
     refimpl::{ref_prove, vec_gens, verify_residual_opts, Cheat, Grp, Proof, RefWitness, Stmt},
-    runner::{guarded, sub, CaseLog, PropertyDef, RunCtx, Sub, Tier, INCONCLUSIVE},
+    runner::{guarded, setup, SKIP, sub, CaseLog, PropertyDef, RunCtx, Sub, Tier, INCONCLUSIVE},
 };
 
 fn sizes<E: Engine>(ctx: &RunCtx) -> (usize, usize) {
@@ -367,7 +367,7 @@ pub fn verdicts<E: Engine>(
 pub fn mut_oracle<E: Engine>(_ctx: &RunCtx, spec: &MutSpec, log: &mut CaseLog) -> Result<(), String> {
     E::reset_case();
     let t = Triple::<E>::build(&spec.base)?;
-    let proof = guarded(|| t.prove())?.map_err(|e| format!("prover refused a valid witness: {:?}", e))?;
+    let proof = setup(guarded(|| t.prove()), "the prover refused or panicked on a valid witness (C01's subject)")?;
     let mut bytes = proof.to_bytes();
     let zero_rounds = t.cfg.nm() == 1;
     let mut pm_applied = 0;
@@ -414,7 +414,7 @@ pub fn mut_oracle<E: Engine>(_ctx: &RunCtx, spec: &MutSpec, log: &mut CaseLog) -
         ));
     }
     if pm_applied == 0 && !st_changed && !lib_ok {
-        return Err("unaltered honest triple rejected".into());
+        return Err(format!("{} the unaltered honest triple is rejected (C01's subject)", SKIP));
     }
     // the same triple as a member of a batch next to an honest single-commitment member (so that for aggregates it is the
     // strictly largest member, and in one order it is not the first): a batch is accepted only if the relation holds for
@@ -437,7 +437,7 @@ pub fn mut_oracle<E: Engine>(_ctx: &RunCtx, spec: &MutSpec, log: &mut CaseLog) -
                 ..spec.base.clone()
             };
             let partner = Triple::<E>::build(&partner_spec)?;
-            let pproof = guarded(|| partner.prove())?.map_err(|e| format!("prover refused a valid witness: {:?}", e))?;
+            let pproof = setup(guarded(|| partner.prove()), "the prover refused or panicked on a valid witness (C01's subject)")?;
             for first in [false, true] {
                 let (mut ts, sts, proofs) = if first {
                     (vec![ps.ctx.transcript(), partner.transcript()], vec![st.clone(), partner.st.clone()], vec![obj.clone(), pproof.clone()])
@@ -676,9 +676,9 @@ pub fn garbage_batch_oracle(_ctx: &RunCtx, spec: &GarbageBatchSpec, log: &mut Ca
             l: (0..k).map(|_| gp(&mut rng).enc()).collect(),
             r: (0..k).map(|_| gp(&mut rng).enc()).collect(),
         };
-        let params = F::params(bits, cap, spec.ext).map_err(|e| format!("{:?}", e))?;
-        sts.push(RangeStatement::init(params, commitments.clone(), promises.clone(), None).map_err(|e| format!("{:?}", e))?);
-        proofs.push(RangeProof::<FP>::from_bytes(&pf.encode()).map_err(|e| format!("{:?}", e))?);
+        let params = F::params(bits, cap, spec.ext).map_err(crate::runner::skip_err)?;
+        sts.push(RangeStatement::init(params, commitments.clone(), promises.clone(), None).map_err(crate::runner::skip_err)?);
+        proofs.push(RangeProof::<FP>::from_bytes(&pf.encode()).map_err(crate::runner::skip_err)?);
         let rst = Stmt {
             bits,
             h: h.clone(),
